@@ -21,6 +21,19 @@ class Recorder:
     def result(self, shape):
         if self.bad == "type":
             return [1, 2, 3]
+        if self.bad == "type_duck":
+            # not a tensor of the backend although shape, dtype and conversion look right
+            v = np.array(self.value)
+
+            class Duck:
+                shape, dtype, ndim = v.shape, v.dtype, v.ndim
+
+                def __array__(self, dtype=None, copy=None):
+                    return v if dtype is None else v.astype(dtype)
+            return Duck()
+        if self.bad == "type_nested":
+            v = np.array(self.value)
+            return v[()] if v.ndim == 0 else (memoryview(np.ascontiguousarray(v)) if v.dtype.kind in "if" else v.tolist())
         if self.bad == "shape":
             return np.zeros(tuple(shape) + (2,), dtype=self.value.dtype)
         return np.array(self.value)
@@ -159,7 +172,7 @@ def run_history(c, positions, kinds, backend, rng_seed):
             out.append(({"kind": "factory_invoked_by_rejected_call"}, {"call": c.record(), "positions": positions, "changed": j}))
     # step 6: wrong return type / shape makes the call fail
     i = rng.choice(positions)
-    for badkind in ("type", "shape"):
+    for badkind in ("type", "shape", "type_duck", "type_nested"):
         recs = {p: Recorder(c.arrays[p], kinds[p], bad=badkind if p == i else None) for p in positions}
         try:
             r = common.with_alarm(30, fn, c.desc, *args_with(recs), **kw)
